@@ -7,10 +7,10 @@ package props
 import (
 	"bytes"
 	"encoding/binary"
-	"math"
 	"encoding/hex"
 	"encoding/json"
 	"fmt"
+	"math"
 	"testing"
 
 	"github.com/EdgeCast/vflow/reader"
